@@ -72,11 +72,12 @@ Lemma Forall2_rep {A B} (Q : A -> B -> Prop) k x y : Q x y -> Forall2 Q (rep k x
 Proof. intros H. induction k; cbn [rep]; constructor; auto. Qed.
 
 Variable gmres_amb : bool.
+Variable fwd_strict : bool.
 Variable lu_o : nat -> fm -> (nat -> nat) * fm * fm.
 Variable chol_o : nat -> fm -> fm.
 Variable tinv_o : nat -> fm -> bool -> fm.
 Variable iter_o : itag -> op -> fm.
-Notation inv := (inv gmres_amb lu_o chol_o).
+Notation inv := (inv gmres_amb fwd_strict lu_o chol_o).
 Notation base := (base lu_o chol_o).
 Notation to_op := (to_op tinv_o iter_o).
 Notation good := (good tinv_o iter_o).
@@ -180,25 +181,25 @@ Fixpoint ok (al : alg) (e : op) (a : atree) {struct e} : Prop :=
                | Some lo => nr A = nc A /\ tri lo (nr A) (dat A) /\ nzdiag (nr A) (dat A)
                | None => base_ok al e a
                end
-  | Kron ms => forallb is_sq ms = true /\ Forall (fun P : Prop => P) (zipapp (map (fun m k => ok al m k) ms) (akids a))
-  | BDiag ms => forallb (fun mc => is_sq (fst mc)) ms = true /\ Forall (fun P : Prop => P) (zipapp (map (fun mc k => ok al (fst mc) k) ms) (akids a))
-  | Prod ms => if forallb is_sq ms then Forall (fun P : Prop => P) (zipapp (map (fun m k => ok al m k) ms) (akids a)) else base_ok al e a
+  | Kron ms => forallb is_sq ms = true /\ Forall (fun P : Prop => P) (zipapp (map (fun m k => ok (child_alg fwd_strict (apsd a) al k) m k) ms) (akids a))
+  | BDiag ms => forallb (fun mc => is_sq (fst mc)) ms = true /\ Forall (fun P : Prop => P) (zipapp (map (fun mc k => ok (child_alg fwd_strict (apsd a) al k) (fst mc) k) ms) (akids a))
+  | Prod ms => if forallb is_sq ms then Forall (fun P : Prop => P) (zipapp (map (fun m k => ok (child_alg fwd_strict (apsd a) al k) m k) ms) (akids a)) else base_ok al e a
   | _ => base_ok al e a
   end.
 
 Definition Pgood (e : op) := forall al a r, wf e = true -> is_sq e = true -> ok al e a -> inv al e a = IOk r -> good r e.
 Lemma zipapp_cons {A} (f : atree -> A) fs ks : zipapp (f :: fs) ks = f (hd adef ks) :: zipapp fs (tl ks).
 Proof. destruct ks; reflexivity. Qed.
-Lemma list_good al (ms : list op) : Forall Pgood ms -> forall ks rs, forallb wf ms = true -> forallb is_sq ms = true ->
-  Forall (fun P : Prop => P) (zipapp (map (fun m k => ok al m k) ms) ks) ->
-  seqres (zipapp (map (fun m k => inv al m k) ms) ks) = inr rs -> goodl ms rs.
+Lemma list_good (ca : atree -> alg) (ms : list op) : Forall Pgood ms -> forall ks rs, forallb wf ms = true -> forallb is_sq ms = true ->
+  Forall (fun P : Prop => P) (zipapp (map (fun m k => ok (ca k) m k) ms) ks) ->
+  seqres (zipapp (map (fun m k => inv (ca k) m k) ms) ks) = inr rs -> goodl ms rs.
 Proof. induction 1 as [|m ms Pm HF IH]; intros ks rs W Sq OK H.
   - cbn in H. inversion H; subst. constructor.
   - cbn [map] in OK, H. rewrite zipapp_cons in OK. rewrite zipapp_cons in H. cbn [seqres] in H. inversion OK as [|? ? O1 O2]; subst.
     cbn [forallb] in W, Sq. apply andb_prop in W as [W1 W]. apply andb_prop in Sq as [S1 Sq].
-    destruct (inv al m (hd adef ks)) as [r|k] eqn:E; [|discriminate].
-    destruct (seqres (zipapp (map (fun m k => inv al m k) ms) (tl ks))) as [k|rs'] eqn:E2; [discriminate|]. inversion H; subst rs.
-    constructor; [apply (Pm al (hd adef ks)); auto|]. apply (IH (tl ks)); auto. Qed.
+    destruct (inv (ca (hd adef ks)) m (hd adef ks)) as [r|k] eqn:E; [|discriminate].
+    destruct (seqres (zipapp (map (fun m k => inv (ca k) m k) ms) (tl ks))) as [k|rs'] eqn:E2; [discriminate|]. inversion H; subst rs.
+    constructor; [apply (Pm (ca (hd adef ks)) (hd adef ks)); auto|]. apply (IH (tl ks)); auto. Qed.
 Lemma lift_ok (f : list iop -> iop) x r : lift f x = IOk r -> exists rs, x = inr rs /\ r = f rs.
 Proof. destruct x; cbn [lift]; intros H; inversion H. eexists; split; reflexivity. Qed.
 Lemma forallb_rev {A} (f : A -> bool) l : forallb f (rev l) = forallb f l.
@@ -230,7 +231,7 @@ Proof. intros TO. apply op_ind2; unfold Pgood.
     apply kron_good; auto. eapply list_good; eauto. cbn [wf] in W. apply andb_prop in W as [W _]. exact W.
   - (* BDiag *) intros ms HF al a r W Sq OK H. cbn [inv ok] in *. apply amb_ok in H. apply lift_ok in H as (rs & E & ->). destruct OK as [SQ OK].
     assert (G : goodl (map fst ms) rs).
-    { apply (list_good al (map fst ms)) with (ks := akids a); auto.
+    { apply (list_good (child_alg fwd_strict (apsd a) al) (map fst ms)) with (ks := akids a); auto.
       - apply Forall_map. exact HF.
       - cbn [wf] in W. rewrite forallb_map_fst. exact W.
       - rewrite forallb_map_fst. exact SQ.
